@@ -94,8 +94,34 @@ def mon_c04(cfg, steps):
 POSTING = ("stake", "submit", "rewards", "resume")
 
 
+def oracle_twins(steps):
+    """pairs of consecutive rolled-back transactions that differ only by a leading UpdateConfig removing the oracle"""
+    blocks = []; cur = []
+    for s in steps:
+        if s.intx:
+            if cur and cur[-1].tx != s.tx:
+                blocks.append(cur); cur = []
+            cur.append(s)
+        elif cur:
+            blocks.append(cur); cur = []
+    if cur:
+        blocks.append(cur)
+    for a, b in zip(blocks, blocks[1:]):
+        if len(b) == len(a) + 1 and b[0].optoks[0] == "exec" and b[0].optoks[5] == "updcfg" and b[0].optoks[7].endswith(";-)") \
+                and [x.optoks for x in b[1:]] == [x.optoks for x in a] and a[0].pre and a[0].pre["protocol"]["oracle"]:
+            yield a, b
+
+
 def mon_c15(cfg, steps):
     out = []
+    for a, b in oracle_twins(steps):
+        if b[0].res != "ok":
+            continue
+        for x, y in zip(a, b[1:]):
+            if x.res != y.res:
+                out.append({"step": x.idx, "what": "%s returns %s with the oracle configured and %s with the oracle removed (same store, same call)" % (
+                    x.optoks[5], x.res, y.res)})
+                break
     for s in steps:
         t = s.optoks
         if t[0] == "query" and t[1] == "state" and s.res == "ok" and s.q and s.pre:
@@ -1342,6 +1368,20 @@ def mon_c02(cfg, steps):
     return out
 
 
+def mon_state_query(cfg, steps):
+    """what the State query reports is what the store holds (the properties are stated on the reported totals)"""
+    out = []
+    for s in steps:
+        t = s.optoks
+        if t[0] == "query" and t[1] == "state" and s.res == "ok" and s.q and s.pre:
+            q = s.q[0]
+            got = (int(q[1]), int(q[2]), int(q[5]), int(q[6]))
+            exp = (s.pre["N"], s.pre["L"], s.pre["reward"], s.pre["fees"])
+            if got != exp:
+                out.append({"step": s.idx, "what": "State query reports (staked, LST, rewards, fees) = %r, the store holds %r" % (got, exp)})
+    return out
+
+
 def mon_migrate_ledger(cfg, steps):
     """the ledger clauses of the migration monitor, for the properties that speak about tracked transfers (C01, C02, C07):
     an upgrade keeps every tracked and pending transfer with its sequence, amount and status and touches nothing else"""
@@ -1363,5 +1403,6 @@ def with_migration(mon):
 MONITORS = {"C02": mon_c02, "C16": mon_c16, "C19": mon_c19, "C20": mon_c20, "C04": mon_c04, "C15": mon_c15, "C03": mon_c03, "C08": mon_c08, "C10": mon_c10, "C11": mon_c11, "C12": mon_c12, "C05": mon_c05, "C06": mon_c06, "C17": mon_c17, "C13": mon_c13, "C14": mon_c14, "C09": mon_c09, "C07": mon_c07, "C18": mon_c18}
 MONITORS["C02"] = with_migration(mon_c02)
 MONITORS["C07"] = with_migration(mon_c07)
-MONITORS["C01"] = mon_migrate_ledger
+MONITORS["C01"] = (lambda cfg, steps: mon_migrate_ledger(cfg, steps) + mon_state_query(cfg, steps))
+MONITORS["C03"] = (lambda cfg, steps: mon_c03(cfg, steps) + mon_state_query(cfg, steps))
 MONITORS["C09"] = (lambda cfg, steps: mon_c09(cfg, steps) + mon_migrate_roles(cfg, steps))
